@@ -433,11 +433,8 @@ func (c *FnCtx) execInstr(bc *blockCtx, instr ssa.Instruction, rr *regionRun) {
 		for _, a := range x.Call.Args {
 			d.args = append(d.args, c.operand(bc, a))
 		}
-		for _, li := range fr.loops {
-			if li.blocks[x.Block()] {
-				c.unsupported("defer inside loop at " + c.eng.posOf(x.Pos()))
-			}
-		}
+		// (a defer inside a loop: the registrations of earlier iterations are represented by a
+		// `wide` entry added at the loop head, see enterLoop)
 		st.defers = append(st.defers, d)
 	case *ssa.RunDefers:
 		c.runDefers(bc)
@@ -1323,6 +1320,10 @@ func (c *FnCtx) runDefers(bc *blockCtx) {
 		if d.active == "false" {
 			continue
 		}
+		if d.wide {
+			c.wideDeferEffects(bc, d)
+			continue
+		}
 		if d.active == "true" {
 			c.execCallWith(bc, &d.instr.Call, d.fnVal, d.args, d.instr.Pos())
 			continue
@@ -1339,4 +1340,94 @@ func (c *FnCtx) runDefers(bc *blockCtx) {
 
 func describeVal(v Val) string {
 	return strings.Join(flatten(v), ",")
+}
+
+// wideDeferEffects applies, at function exit, the effects of the deferred calls that earlier
+// iterations of a loop registered (an unknown number, with unknown arguments): everything the
+// callee's contract allows it to modify is havoced for all objects. Their preconditions are not
+// checked here (only the last iteration's registration is executed as a real call).
+func (c *FnCtx) wideDeferEffects(bc *blockCtx, d deferEntry) {
+	cc := &d.instr.Call
+	name := calleeName(cc)
+	var callee *ssa.Function
+	if f := cc.StaticCallee(); f != nil {
+		callee = f
+	}
+	if callee != nil && callee.Pkg != nil {
+		pp := callee.Pkg.Pkg.Path()
+		if strings.HasPrefix(pp, "github.com/ipfs/go-log") || strings.HasPrefix(pp, "go.uber.org/zap") {
+			return
+		}
+	}
+	var spec *FuncSpec
+	switch {
+	case callee != nil:
+		spec = c.eng.findSpec(callee)
+	case cc.IsInvoke():
+		spec = c.invokeSpec(cc)
+	default:
+		spec = c.funcValueSpec(cc, Val{})
+	}
+	if spec == nil {
+		c.unsupported("defer inside loop of a callee without contract (" + name + ") at " + c.eng.posOf(d.instr.Pos()))
+		return
+	}
+	c.assumed["deferred calls registered by earlier loop iterations ("+calleeShort(c.eng, callee, name)+"): effects applied wholesale at exit, preconditions checked for the last registration only"] = true
+	if spec.Pure {
+		return
+	}
+	// fresh symbolic arguments of the right types, only to resolve the targets' types
+	var args []Val
+	if cc.IsInvoke() {
+		args = append(args, c.freshVal(bc.st, cc.Value.Type(), "defer.recv"))
+	}
+	for _, a := range cc.Args {
+		args = append(args, c.freshVal(bc.st, a.Type(), "defer.arg"))
+	}
+	fnames := formalNames(spec, cc.Signature(), callee, len(args))
+	var pkg *types.Package
+	if callee != nil && callee.Pkg != nil {
+		pkg = callee.Pkg.Pkg
+	} else if spec.PkgPath != "" {
+		pkg = c.eng.tpkgs[spec.PkgPath]
+	}
+	env := &Env{c: c, st: bc.st, old: bc.st, vars: map[string]Val{}, pkg: pkg, macros: spec.Macros}
+	for i, n := range fnames {
+		if i < len(args) && n != "_" {
+			env.vars[n] = args[i]
+		}
+	}
+	targets := c.modTargets(env, append(append([]*Expr(nil), spec.Modifies...), spec.TrustedModifies...), spec.Pos)
+	na := c.sc.fresh("alloc", "Int")
+	c.sc.assert("(>= " + na + " " + bc.st.alloc + ")")
+	bc.st.alloc = na
+	whole := func(n, srt string) { c.heapHavoc(bc.st, n, srt) }
+	for _, t := range targets {
+		switch t.kind {
+		case "field":
+			for _, lf := range leavesOf(t.ty) {
+				whole(t.prefix+lf.path, arrSort(lf.sort))
+			}
+		case "elems":
+			for _, lf := range leavesOf(t.ty) {
+				whole(t.prefix+lf.path, arr2Sort(lf.sort))
+			}
+		case "map":
+			mv, mp, mc := mapNames(t.mt)
+			for _, lf := range leavesOf(t.mt.Elem()) {
+				whole(mv+lf.path, arr2Sort(lf.sort))
+			}
+			whole(mp, arr2Sort("Bool"))
+			whole(mc, arrSort("Int"))
+		case "once":
+			whole(t.prefix, arrSort("Bool"))
+		case "ghostfield":
+			whole(t.prefix, arrSort(t.name))
+		case "chan":
+			whole("CH:closed", arrSort("Bool"))
+			whole("CH:waited", arrSort("Bool"))
+		default:
+			c.havocTargets(bc.st, []modTarget{t})
+		}
+	}
 }
